@@ -10,13 +10,15 @@ ENGINE = "fsbox"
 LEVEL = "fault_enumeration"
 BUDGET = {"quick": (6000, 60), "thorough": (120000, 540)}
 RULE = ("fault grid enumerated completely in both tiers: document defect {none, warnings only, Section "
-        "type cleared, duplicate ids, duplicate sibling names} x serialisation failure {none, "
-        "unsupported rdf_format, control character in name/value/definition, attribute object json "
-        "cannot encode} x backend {XML plain/local_style/custom_template, JSON, YAML, RDF x 6 "
+        "type cleared, duplicate ids, duplicate sibling names - each planted at the top, deep, across "
+        "branches, on Properties} x serialisation failure {none, unsupported rdf_format, control "
+        "character in name/value/definition, lone surrogate in value/definition/author, attribute "
+        "object json cannot encode} x warnings filter {always, error} for warnings-only documents x backend {XML plain/local_style/custom_template, JSON, YAML, RDF x 6 "
         "sub-formats} x target pre-state {absent, earlier bytes, directory} x entry point {odml.save, "
         "ODMLWriter.write_file, XMLWriter.write_file, RDFWriter.write_file} (incompatible "
-        "combinations dropped); then seeded multi-step save histories in one sandbox (target may "
-        "hold the previous successful save) with failing opens injected. distinct = distinct "
+        "combinations dropped); then seeded multi-step save histories in one sandbox over seeded random "
+        "documents (target may hold the previous successful save; one ODMLWriter per backend reused "
+        "across the steps) with failing opens injected. distinct = distinct "
         "(cell, outcome class) pairs")
 COMPONENTS = {
     "real": ["odml.tools.odmlparser", "odml.tools.xmlparser", "odml.tools.rdf_converter",
@@ -32,7 +34,8 @@ LEVEL_TEXT = ("The finite fault grid of the quantifier is enumerated completely:
               "whole sandbox directory is snapshotted before and after the save call. A planted "
               "error-rank defect must make the validating entry points raise ParserException for "
               "every backend; whenever any entry point raises, no path may have been created or "
-              "changed; a warnings-only document must be written once and the warning reported. "
+              "changed; a warnings-only document must be written once and the warning reported (a refusal "
+              "nothing else explains is a violation), also when the caller escalates warnings to errors. "
               "Seeded histories then repeat this over sequences of saves into one sandbox.")
 LEVEL_NOTE = ("the harness knows by construction whether it planted an error (Validation is not "
               "consulted); XMLWriter.write_file / RDFWriter.write_file do not validate and are judged "
